@@ -6,6 +6,7 @@
             d;<key>         del comp.<KEY>         key  DTSTART DTEND DUE DURATION
             a;<key>;<arg>   comp.add('<key>', arg)
       arg   N (None) | W (str/int) | R (time/period) | D<day> | F<wall> | U<wall> | Z<zone>:<wall>:<off> | T<seconds>
+    se_last <cls> <prov> <op> ...   the record of the final state only (result field "ok")
     answer: one record for the fresh component and one after every op, joined by '|':
       <op result>;<stored keys>;<DTSTART>;<DTEND or DUE>;<DURATION>;<start>;<end>;<duration>
       values: - (None / no such accessor) | D<day> | F<wall> | U<wall> | Z<zone>:<wall> | T<seconds> | R | !IC !INC !TE !VE !AE
@@ -135,6 +136,12 @@ def handleStartEnd (op : String) (args : List String) : Option String :=
     | some c, some p, some ops =>
       if ops.all (Op.inDomain c) then
         some ("|".intercalate (SEP.record p c "new" St.init :: SEP.runRecords p c St.init ops))
+      else some "unmodelled"
+    | _, _, _ => none
+  | "se_last", c :: p :: ops =>
+    match SEP.decCls c, SEP.decProv p, ops.mapM SEP.decOp with
+    | some c, some p, some ops =>
+      if ops.all (Op.inDomain c) then some (SEP.record p c "ok" (run c St.init ops))
       else some "unmodelled"
     | _, _, _ => none
   | _, _ => none
